@@ -197,8 +197,24 @@ fn main() {
             let g = gen::generate(seed, run, prop);
             println!("{}", serde_json::to_string_pretty(&g.scenario).unwrap());
         }
+        Some("show") => {
+            // harness maintenance aid: what the parser makes of a replay file's query (stock
+            // rendering of the parsed relation) and what the DP compiler returns for it
+            let file = arg(&args, "--file").expect("--file");
+            let v: serde_json::Value = serde_json::from_str(&std::fs::read_to_string(file).unwrap()).unwrap();
+            let sc: Scenario = serde_json::from_value(v["scenario"].clone()).expect("scenario");
+            println!("-- query\n{}", sc.sql);
+            match pipeline::compile(&sc) {
+                Ok(c) => {
+                    println!("-- parsed relation, rendered\n{}", pipeline::render_native(&c.original));
+                    println!("-- DP relation, rendered\n{}", pipeline::render_native(&c.dp));
+                    println!("-- event\n{:?}", c.event);
+                }
+                Err(e) => println!("-- compile: {:?}", e),
+            }
+        }
         _ => {
-            eprintln!("usage: sim-b run|replay|gen ...");
+            eprintln!("usage: sim-b run|replay|gen|show ...");
             std::process::exit(2);
         }
     }
